@@ -43,6 +43,9 @@ pub fn install_panic_hook_thread() {}
 fn install_panic_hook() {
     std::panic::set_hook(Box::new(|info| {
         let loc = info.location().map(|l| format!("{}:{}", l.file().rsplit("/src/").next().unwrap_or(l.file()), l.line())).unwrap_or_default();
+        if std::env::var("VERIF_DEBUG_PANIC").is_ok() {
+            eprintln!("panic: {}", info);
+        }
         LAST_PANIC.with(|l| *l.borrow_mut() = loc);
     }));
 }
